@@ -173,6 +173,10 @@ func c11Scribble(v interface{}) {
 			for _, k := range x.MapKeys() {
 				x.SetMapIndex(k, reflect.Value{})
 			}
+			// and a key of the caller's own goes in: a container shared between results (or with a later call) shows it
+			if x.Type().Key().Kind() == reflect.String && x.Type().Elem().Kind() == reflect.Interface {
+				x.SetMapIndex(reflect.ValueOf("\x00scribbled").Convert(x.Type().Key()), reflect.ValueOf("by-the-caller"))
+			}
 		case reflect.Struct:
 			for i := 0; i < x.NumField(); i++ {
 				if x.Type().Field(i).PkgPath == "" { // exported
@@ -382,6 +386,50 @@ func init() {
 			return "err", 0
 		}
 		return c11JSON(hits), len(hits)
+	}
+	// ---- the convenience wrappers (search.go, secrets.go, deleted.go, csv.go, toast.go): same determinism obligations
+	c11Ops["quick_search"] = func(st *c11State, param string, rep int) (string, int) {
+		hits, err := pgdump.QuickSearch(st.env.dir, c11Str(param))
+		if err != nil {
+			return "err", 0
+		}
+		return c11JSON(hits), len(hits)
+	}
+	c11Ops["scan_for_secrets"] = func(st *c11State, param string, rep int) (string, int) {
+		f, err := pgdump.ScanForSecrets(st.env.dir, nil)
+		if err != nil {
+			return "err", 0
+		}
+		r, err := pgdump.SearchSecrets(st.env.dir)
+		if err != nil {
+			return "err", 0
+		}
+		return c11JSON(f) + "\n" + c11JSON(r), len(f)
+	}
+	c11Ops["scan_all_deleted"] = func(st *c11State, param string, rep int) (string, int) {
+		r, err := pgdump.ScanAllDeletedRows(st.env.dir, nil)
+		if err != nil || r == nil {
+			return "err", 0
+		}
+		return c11DumpText(r), c11MaxTables(r)
+	}
+	c11Ops["write_csv_file"] = func(st *c11State, param string, rep int) (string, int) {
+		r := c11Dump(st)
+		if r == nil {
+			return "err", 0
+		}
+		var w bytes.Buffer
+		if err := pgdump.WriteCSVFile(&w, r); err != nil {
+			return "err:" + err.Error(), 0
+		}
+		return w.String(), c11MaxTables(r)
+	}
+	c11Ops["analyze_toast"] = func(st *c11State, param string, rep int) (string, int) {
+		l, err := pgdump.AnalyzeTOAST(st.env.dir, c11Str(param))
+		if err != nil {
+			return "err", 0
+		}
+		return c11JSON(l), len(l)
 	}
 	c11Ops["scan_secrets"] = func(st *c11State, param string, rep int) (string, int) {
 		r := c11Dump(st)
